@@ -160,15 +160,22 @@ func cmdClusterDuties(args []string) int {
 				node  uint64
 				d     int
 				mode  int  // 0 by name, 1 by share key, 2 by share key with a trailing byte
-				batch bool // through the batch endpoint, followed by an entry that is refused
+				batch bool // through the batch endpoint, together with an entry for the second account
+				fresh bool // that other entry is approvable (else stale and refused)
+				order bool // the other entry comes first
+				seq   int
 			}
 			var plan []send
 			for di := 0; di < 2; di++ {
 				for _, id := range gr.Parts {
 					if rng.Chance(85) {
-						plan = append(plan, send{id, di, []int{0, 0, 1, 2}[rng.Intn(4)], rng.Chance(30)})
+						plan = append(plan, send{id, di, []int{0, 0, 1, 2}[rng.Intn(4)], rng.Chance(30), rng.Chance(50), rng.Chance(50), len(plan)})
 						if rng.Chance(25) {
-							plan = append(plan, send{id, di, []int{0, 1, 2}[rng.Intn(3)], rng.Chance(30)})
+							plan = append(plan, send{id, di, []int{0, 1, 2}[rng.Intn(3)], rng.Chance(30), rng.Chance(50), rng.Chance(50), len(plan)})
+						}
+						if di == 1 && rng.Chance(35) {
+							// between the two duties: a stale attestation for the SAME account, refused, inside a batch
+							plan = append(plan, send{id, -1, 0, true, true, false, len(plan)})
 						}
 					}
 				}
@@ -201,7 +208,16 @@ func cmdClusterDuties(args []string) int {
 			var mu sync.Mutex
 			deliver := func(s send, record bool) {
 				n := c.Nodes[s.node]
-				d := duties[s.d]
+				var d duty
+				if s.d >= 0 {
+					d = duties[s.d]
+				} else {
+					if duties[0].Att == nil || shareKeyW[s.node] == nil {
+						return
+					}
+					// the poison: far below anything signed for this account
+					d = duty{Att: &AttData{Dom: duties[0].Att.Dom, Slot: 64, Idx: 1, BBR: fill32(0x33), Src: &Checkpoint{Epoch: 1, Root: fill32(1)}, Tgt: &Checkpoint{Epoch: 2, Root: fill32(0x33)}}}
+				}
 				var batchObs []Obs
 				var pre, post *StoreView
 				if record {
@@ -226,13 +242,23 @@ func cmdClusterDuties(args []string) int {
 				case d.Att != nil && s.batch && shareKeyW[s.node] != nil:
 					// the duty inside a batch whose other entry (the second account, far ahead) is refused
 					stale := AttData{Dom: d.Att.Dom, Slot: 64, Idx: 1, BBR: fill32(7), Src: &Checkpoint{Epoch: 1, Root: fill32(1)}, Tgt: &Checkpoint{Epoch: 2, Root: fill32(7)}}
+					if s.fresh {
+						// ... or is approved (the second account moves on): results must stay with their entries
+						wEpoch := 1000000 + epoch + uint64(s.seq)
+						stale = AttData{Dom: d.Att.Dom, Slot: wEpoch * 32, Idx: 1, BBR: fill32(8), Src: &Checkpoint{Epoch: wEpoch - 1, Root: fill32(1)}, Tgt: &Checkpoint{Epoch: wEpoch, Root: fill32(8)}}
+					}
 					op.Kind, op.Addrs, op.Atts = KAttests, []Addr{ad, {Name: acctW}}, []AttData{*d.Att, stale}
-					rs, sigs := n.Signer.SignBeaconAttestations(ctx, creds, []string{name, acctW}, [][]byte{key, nil}, []*rules.SignBeaconAttestationData{d.Att.toRules(), stale.toRules()})
+					names, keys, datas, mine := []string{name, acctW}, [][]byte{key, nil}, []*rules.SignBeaconAttestationData{d.Att.toRules(), stale.toRules()}, 0
+					if s.order {
+						op.Addrs, op.Atts = []Addr{{Name: acctW}, ad}, []AttData{stale, *d.Att}
+						names, keys, datas, mine = []string{acctW, name}, [][]byte{nil, key}, []*rules.SignBeaconAttestationData{stale.toRules(), d.Att.toRules()}, 1
+					}
+					rs, sigs := n.Signer.SignBeaconAttestations(ctx, creds, names, keys, datas)
 					nres = len(rs)
-					if len(rs) > 0 {
-						res = rs[0]
-						if len(sigs) > 0 {
-							sig = sigs[0]
+					if len(rs) > mine {
+						res = rs[mine]
+						if len(sigs) > mine {
+							sig = sigs[mine]
 						}
 					}
 					if record {
@@ -269,9 +295,10 @@ func cmdClusterDuties(args []string) int {
 				}
 				mu.Lock()
 				defer mu.Unlock()
-				if valid {
+				if valid && s.d >= 0 {
 					signed[s.d][s.node] = bs
 				}
+
 				stats["requests"]++
 				if valid {
 					stats["requests.signed"]++
